@@ -7,33 +7,34 @@ From Verif Require Import PyObj Gen_PyObj PyObjThm PyObjThmRt.
 Import ListNotations.
 Open Scope Z_scope.
 
-(* record update for the third fix fact (PyObj.v has helpers for the other two) *)
+(* record updates for the fix facts PyObj.v has no helper for *)
 Definition set_nd_only (b : bool) (T : tmpl) : tmpl :=
   {| t_int_check := t_int_check T; t_float_check := t_float_check T; t_float_nonfinite_ok := t_float_nonfinite_ok T;
      t_float_check_below := t_float_check_below T; t_cmp_fixed := t_cmp_fixed T; t_cmp_var := t_cmp_var T;
      t_len_bytes := t_len_bytes T; t_len_nd := t_len_nd T; t_len_slow := t_len_slow T; t_bytes_max_w := t_bytes_max_w T;
      t_comp_isinstance := t_comp_isinstance T; t_union_clear_others := t_union_clear_others T;
      t_union_clear_after := t_union_clear_after T; t_union_ctor_count := t_union_ctor_count T;
-     t_arr_precheck := t_arr_precheck T; t_precheck_nd_only := b; t_text_guard := t_text_guard T |}.
+     t_arr_precheck := t_arr_precheck T; t_precheck_nd_only := b; t_src_exact := t_src_exact T; t_text_guard := t_text_guard T |}.
+Definition set_src_exact (b : bool) (T : tmpl) : tmpl :=
+  {| t_int_check := t_int_check T; t_float_check := t_float_check T; t_float_nonfinite_ok := t_float_nonfinite_ok T;
+     t_float_check_below := t_float_check_below T; t_cmp_fixed := t_cmp_fixed T; t_cmp_var := t_cmp_var T;
+     t_len_bytes := t_len_bytes T; t_len_nd := t_len_nd T; t_len_slow := t_len_slow T; t_bytes_max_w := t_bytes_max_w T;
+     t_comp_isinstance := t_comp_isinstance T; t_union_clear_others := t_union_clear_others T;
+     t_union_clear_after := t_union_clear_after T; t_union_ctor_count := t_union_ctor_count T;
+     t_arr_precheck := t_arr_precheck T; t_precheck_nd_only := t_precheck_nd_only T; t_src_exact := b; t_text_guard := t_text_guard T |}.
 
-(* the fixed template: all three fix facts true, everything else as scanned *)
-Notation TGf := (set_text_guard true (set_nd_only true (set_precheck true TG))).
+(* the fixed template: all four source-check facts of the fixes true, everything else as scanned *)
+Notation TGf := (set_text_guard true (set_src_exact true (set_nd_only true (set_precheck true TG)))).
 
-Theorem tmpl_live3 : TG = set_text_guard (t_text_guard TG) (set_nd_only (t_precheck_nd_only TG) (set_precheck (t_arr_precheck TG) TG)).
+Theorem tmpl_live3 : TG = set_text_guard (t_text_guard TG) (set_src_exact (t_src_exact TG)
+                            (set_nd_only (t_precheck_nd_only TG) (set_precheck (t_arr_precheck TG) TG))).
 Proof. reflexivity. Qed.
 
-(* the range check of the source in the fixed template: an ndarray element by element; anything else leaf by leaf unless it
-   contains a Python float (NumPy infers float64 for such a list; the cast then raises OverflowError for a Python number that
-   does not fit, so nothing out of range is stored: see slow_sound below) *)
+(* the range check of the source in the fixed template (_int_elements_ok_): every leaf of the source, whatever kind of container
+   it sits in, must be an integer within the range of the element type (a float leaf: finite, integral, in range) *)
 Lemma int_src_ok_f : forall e y, int_src_ok TGf e y =
-  match y with
-  | PArr _ l => forallb (int_leaf_ok e) l
-  | _ => match np_flat y with
-         | Ok sl => existsb is_pyfloat (snd sl) || forallb (int_leaf_ok e) (snd sl)
-         | Raise _ => true
-         end
-  end.
-Proof. intros e y. destruct y; reflexivity. Qed.
+  match np_flat y with Ok sl => forallb (int_leaf_exact e) (snd sl) | Raise _ => true end.
+Proof. reflexivity. Qed.
 
 Definition byte_elems (s : list N) : list pyval := map (fun c => PInt (Z.of_N (c mod 256))) s.
 
@@ -257,11 +258,11 @@ Theorem numeric_text_fixed :
   assign_array TGf PW false false 4 false (EPrim (KU 8)) (PBytes [49%N; 50%N; 51%N]) = Ok (PArr (DU 8) [PInt 49; PInt 50; PInt 51]).
 Proof. split; [|split]; vm_compute; reflexivity. Qed.
 
-(* the list-with-a-float exemption of the source check at work: accepted when every number fits (the cast truncates 1.0 to 1),
-   OverflowError from the cast otherwise - nothing outside the range is stored (array_accept_sound) *)
+(* a list with an integral Python float: accepted when every number is an integer in range (1.0 is stored as 1), ValueError from the
+   source check otherwise - nothing outside the range is stored (array_accept_sound) *)
 Theorem float_in_list_example :
   assign_array TGf PW false false 4 false (EPrim (KU 8)) (PList [PFloat 4607182418800017408; PInt 3]) = Ok (PArr (DU 8) [PInt 1; PInt 3]) /\
-  assign_array TGf PW false false 4 false (EPrim (KU 8)) (PList [PFloat 4607182418800017408; PInt 300]) = Raise OverflowError /\
+  assign_array TGf PW false false 4 false (EPrim (KU 8)) (PList [PFloat 4607182418800017408; PInt 300]) = Raise ValueError /\
   assign_array TGf PW false false 4 false (EPrim (KU 8)) (PList [PInt 300]) = Raise ValueError /\
   arr_accepts false 4 false (EPrim (KU 8)) (PList [PFloat 4607182418800017408; PInt 3]) = true /\
   arr_accepts false 4 false (EPrim (KU 8)) (PList [PFloat 4607182418800017408; PInt 300]) = false.
